@@ -229,7 +229,7 @@ class PipeWorld:
 
     def activate(self):
         self._patch()
-        dawgie.context.ae_base_path = os.path.join(common.scratch_root(), self.eng.pkg)
+        dawgie.context.ae_base_path = os.path.join(common.scratch_root(), *self.eng.pkg.split('.'))
         dawgie.context.ae_base_package = self.eng.pkg
 
     # -------------------------------------------------------------- boot
@@ -249,6 +249,12 @@ class PipeWorld:
             del lst[:]
         farm._time.clear()
         farm.insights.clear()
+        for a in self.eng.algs:
+            if a.get('where') == 'auto':
+                # history says: heavy on cpu, place it in the cloud
+                import dawgie.pl.resources as resources
+                for t in list(self.targets) + ['__all__']:
+                    farm.insights[f'{t}.{self.eng.tag(a)}'] = resources.HINT(1, 0, 0, 0, dawgie.Distribution.cloud)
         for c in self.conns:
             c.lost = True
         self.conns = []
@@ -484,7 +490,11 @@ class PipeWorld:
                 self.ev_reg()
         released = None
         before = [n.tag for n in farm._jobs]
-        farm.dispatch()
+        try:
+            farm.dispatch()
+        except Exception as e:  # noqa
+            # the LoopingCall that drives dispatch would stop here
+            self.obs.append(('dispatch-raised', type(e).__name__, str(e)[:160]))
         self.collect()
         if getattr(self.fsm, 'archiving', False):
             # the archive completes (FSM._archive_done): back to running
